@@ -240,7 +240,7 @@ pub fn arb_prov() -> impl Strategy<Value = Prov> {
 /// the 70 400-bit fixed type about once in a hundred (its operations cost milliseconds).
 pub fn arb_tid() -> impl Strategy<Value = Tid> {
     prop_oneof![
-        72 => (0usize..20).prop_map(|i| ROUTINE_FIXED[i]),
+        72 => (0usize..26).prop_map(|i| ROUTINE_FIXED[i]),
         12 => Just(TID_D),
         12 => Just(TID_A),
         1 => Just(TID_HUGE),
